@@ -46,6 +46,7 @@ CONSTANTS N,            \* number of parallel indexes
           KillEdits,    \* set of delays (99 = remove the timestamp) the user may move a kill timestamp to that has not yet passed
           UserDeletes, ExtDeletes, NodeDowns,  \* BOOLEAN switches for environment actions
           Invalids,     \* BOOLEAN: the API server may refuse a Pod create for good (Invalid): the Job gets an admission error
+          WatchBreaks,  \* BOOLEAN: the Pod watch may break (undelivered Pod events lost, the informer lists again)
           Holds,        \* BOOLEAN: the Job was submitted with another controller's finalizer next to furiko's (released only after deletion)
           Rejects       \* BOOLEAN: the queue controller may refuse the Job before it starts (admission-error annotation)
 
@@ -269,6 +270,14 @@ DeliverPod ==
     /\ wq' = (wq \/ Head(pq)[2].mine \/ pc[Head(pq)[1]].mine)
     /\ UNCHANGED <<now, job, pods, jc, jq, timer, retry, pass, down, faults, crashes, rvc, uidc, edited, udel, ttlAt, ttlLB, taint>>
     /\ last' = [a |-> "DeliverPod"] /\ Ghosts
+\* the Pod watch breaks and the informer lists again: the cache jumps to the present; the handlers get an update for every
+\* listed Pod and a tombstone for every Pod that is gone, and enqueue the Job for each one that it owns
+PodRelist ==
+    /\ WatchBreaks /\ pq # <<>>
+    /\ pc' = pods /\ pq' = <<>>
+    /\ wq' = (wq \/ \E s \in Slots : (pods[s].ex /\ pods[s].mine) \/ (pc[s].ex /\ pc[s].mine))
+    /\ UNCHANGED <<now, job, pods, jc, jq, timer, retry, pass, down, faults, crashes, rvc, uidc, edited, udel, ttlAt, ttlLB, taint>>
+    /\ last' = [a |-> "PodWatchBreak"] /\ Ghosts
 TimerFire == /\ timer /\ timer' = FALSE /\ wq' = TRUE
              /\ UNCHANGED <<now, job, pods, jc, pc, jq, pq, retry, pass, down, faults, crashes, rvc, uidc, edited, udel, ttlAt, ttlLB, taint>>
              /\ last' = [a |-> "TimerFire"] /\ Ghosts
@@ -493,7 +502,7 @@ Init ==
     /\ ever = {} /\ succ = {} /\ listed = {} /\ succRec = {} /\ edited = FALSE /\ udel = FALSE /\ ttlAt = 0 /\ ttlLB = 0 /\ doneAt = 0
     /\ taint = "" /\ last = [a |-> "Init"]
 
-Env == \/ Tick \/ Start \/ Reject \/ UserDelete \/ ReleaseHold \/ DeliverJob \/ DeliverPod \/ TimerFire \/ RetryFire \/ CrashRestart
+Env == \/ Tick \/ Start \/ Reject \/ UserDelete \/ ReleaseHold \/ DeliverJob \/ DeliverPod \/ PodRelist \/ TimerFire \/ RetryFire \/ CrashRestart
        \/ \E d \in KillDelays : UserKill(d)
        \/ \E d \in KillEdits : UserRekill(d)
        \/ \E s \in Slots : Kubelet(s, "R") \/ Kubelet(s, "S") \/ Kubelet(s, "F") \/ KubeletGone(s) \/ NodeDown(s) \/ ExternalDelete(s)
